@@ -35,13 +35,15 @@ def run(ctx: Ctx) -> None:
 
 def gate(ctx: Ctx, rule="R-C10-GATE") -> None:
     f = ctx.func(f"{C.RUNNER}._run_consumer")
-    g = ctx.cfg(f)
+    from .runner import RC_EXCLUDE
+
+    g = ctx.icfg(f, exclude=RC_EXCLUDE)
     sym = run_consumer_symbols(ctx, f, g)
     spawns = [n for n in g.nodes if sym(n) == "spawn"]
     rejects = [n for n in g.nodes if sym(n) == "reject"]
     releases = [n for n in g.nodes if sym(n) == "release"]
     ctx.require(bool(spawns), f"{f.qualname}: spawn site not found")
-    tests = [n for n in g.nodes if n.kind == "test" and any(_mentions(x, "max_tasks", "max_tasks_hit", "messages_limit") for x in C.expand_locals(f, n.ast))]
+    tests = [n for n in g.nodes if n.kind == "test" and any(_mentions(x, "max_tasks", "max_tasks_hit", "messages_limit") for x in C.expand_locals(n.func, n.ast))]
     if not ctx.check(bool(tests), rule, f, "budget test between receive and spawn", "spawn control-dependent on the message budget",
                      "the consume loop spawns a processing task without testing the message budget: messages_limit only bounds finished tasks, "
                      "so with slow actors more than messages_limit executions are started", node=spawns[0], instance="budget test exists"):
@@ -57,7 +59,9 @@ def gate(ctx: Ctx, rule="R-C10-GATE") -> None:
     ctx.require(counter is not None, f"{f.qualname}: the quantity compared with max_tasks not recognised")
     cname = counter.split(".")[-1]
     for ordering in ("lt", "eq", "gt"):
-        env = ord_env(g, f, cname, "max_tasks", ordering)
+        env = {}
+        for fn_ in {n.func.qualname: n.func for n in g.nodes}.values():
+            env.update(ord_env(g, fn_, cname, "max_tasks", ordering))
         ctx.require(bool(env), f"{f.qualname}: comparison {cname} ? max_tasks not found")
         r = flow.reach_under(g, env, flow.NORMAL_KINDS)
         sp = any(s.id in r for s in spawns)
@@ -111,13 +115,17 @@ def stop(ctx: Ctx, rule="R-C10-STOP") -> None:
               "finished task counted before the limit is evaluated", "the M-th finished task triggers the stop",
               "_task_callback evaluates the limit before counting the finished task: the stop event is set one task late (run() does not return after M)",
               instance="count before test")
-    t_edges = set()
-    for t in tests:
-        t_edges |= flow.reach(g, [t.id], ("T",))
-    ctx.check(all(s.id in t_edges | flow.reach(g, t_edges, flow.NORMAL_KINDS) for s in sets) and
-              not any(s.id in flow.reach(g, flow.reach(g, [t.id for t in tests], ("F",)), flow.NORMAL_KINDS) | flow.reach(g, [t.id for t in tests], ("F",)) for s in sets),
-              rule, cb, "stop event set under the limit test", "stop only when the limit is hit",
-              "_task_callback sets the stop event regardless of the limit test", instance="stop under test")
+    def hit_env(hit):
+        def fn(text, node):
+            if isinstance(node, ast.Attribute) and node.attr == "max_tasks_hit":
+                return hit
+            return None
+        return {"*hit": fn}
+
+    r_hit = flow.reach_under(g, hit_env(True), flow.NORMAL_KINDS)
+    r_not = flow.reach_under(g, hit_env(False), flow.NORMAL_KINDS)
+    ctx.check(all(s.id in r_hit for s in sets) and not any(s.id in r_not for s in sets), rule, cb, "stop event set exactly when the limit is hit", "stop only when the limit is hit",
+              "_task_callback does not set the stop event exactly when max_tasks_hit holds", instance="stop under test")
     hit = ctx.func(f"{C.RUNNER}.max_tasks_hit")
     ctx.check(_mentions(hit.node, "max_tasks") and _mentions(hit.node, "_tasks_processed"), rule, hit, "max_tasks_hit reads the limit and the finished count",
               "limit - finished - in flight", "max_tasks_hit does not depend on max_tasks and the finished-task count", instance="max_tasks_hit operands")
